@@ -164,13 +164,113 @@ fn direct(ctx: &Ctx, c: CipherAlg, ring: bool) {
     }
 }
 
+
+/// Rejections that are not caused by altered bytes. (1) A message that IS valid under the reserved nonce 2^64-1
+/// (crafted with the reference AEAD and the session key a non-conforming peer would hold): the read must be refused
+/// (C09) and, refused, must not have put the plaintext into the caller's buffer. (2) A genuine handshake message
+/// whose (encrypted) static key differs from one the reader's builder was given although the pattern transmits
+/// it: snow accepts such a message; an implementation that rejects it must not leave the payload behind either.
+fn other_rejections(ctx: &Ctx) {
+    use crate::exec::payload_bytes;
+    let mut jobs = vec![];
+    for (c, b) in cipher_backends() {
+        for stateless in [true, false] {
+            for plen in [8usize, 40, 300] {
+                for slack in [0usize, 5, 16, 200] {
+                    jobs.push((c, b, stateless, plen, slack));
+                }
+            }
+        }
+    }
+    jobs.par_iter().for_each(|(c, b, stateless, plen, slack)| {
+        let p = proto("NN", &[], DhAlg::X25519, *c, HashAlg::Sha256);
+        let mut cfg = Config::honest(&p, 0);
+        cfg.backend = [*b, *b];
+        cfg.crypto_oracle = false;
+        cfg.record = true;
+        let mut e = Exec::new(&cfg);
+        e.keep_err_buf = true;
+        let mut ops = sess::handshake_ops(&p, &[0, 0, 0, 0]);
+        ops.extend(sess::convert_ops(if *stateless { Mode::SS } else { Mode::TT }));
+        for op in &ops {
+            e.step(op);
+        }
+        // the responder's receiving key (cipher object 1 = initiator -> responder)
+        let Some(key) = e.logs[Side::R.idx()].current_key(1) else { return };
+        let pt = payload_bytes(*plen, 0x3c);
+        let ct = c.encrypt(&key, u64::MAX, &[], &pt);
+        let read = if *stateless {
+            Op::SRead { side: Side::R, nonce: u64::MAX, msg: Msg::Raw(ct), cap: Cap::Exact(plen + slack) }
+        } else {
+            e.step(&Op::SetRecvNonce { side: Side::R, n: u64::MAX });
+            ops.push(Op::SetRecvNonce { side: Side::R, n: u64::MAX });
+            Op::TRead { side: Side::R, msg: Msg::Raw(ct), cap: Cap::Exact(plen + slack) }
+        };
+        e.step(&read);
+        ops.push(read);
+        ctx.add(&ctx.evaluations, 1);
+        ctx.add(&ctx.transitions, ops.len() as u64);
+        ctx.add(&ctx.traces, 1);
+        let st = e.steps.last().unwrap();
+        if st.real.is_ok() {
+            return; // accepting it is C09's violation, not this property's
+        }
+        ctx.add(&ctx.nontrivial, 1);
+        ctx.count("reserved-nonce message rejected", 1);
+        if let Some(buf) = &st.err_buf {
+            if let Some(off) = leaks(buf, &pt) {
+                ctx.violation("the output buffer of a read refused for the reserved nonce contains the plaintext of the refused message", format!("{} {:?} {}: plaintext window at offset {off}, buffer {} bytes", cfg.name, b, if *stateless { "stateless" } else { "stateful" }, buf.len()), json!({"kind": "reserved", "cipher": c.name(), "backend": b}));
+            }
+        }
+    });
+    ctx.count("reserved_nonce_cases", jobs.len() as u64);
+    // (2)
+    let mut pj = vec![];
+    for (c, b) in cipher_backends() {
+        for dh in [DhAlg::X25519, DhAlg::P256] {
+            for (pat, k) in [("XX", 1usize), ("XX", 2), ("IK", 0), ("XK", 2), ("KX", 1), ("X", 0), ("IX", 1), ("XN", 2)] {
+                for cap in [Cap::Roomy, Cap::NeedPlus(0)] {
+                    pj.push((c, b, dh, pat, k, cap));
+                }
+            }
+        }
+    }
+    pj.par_iter().for_each(|(c, b, dh, pat, k, cap)| {
+        let p = proto(pat, &[], *dh, *c, HashAlg::Blake2s);
+        let w = sess::writer(*k);
+        let r = w.peer();
+        let mut cfg = Config::honest(&p, 0);
+        cfg.backend = [*b, *b];
+        cfg.crypto_oracle = false;
+        if cfg.rs_pub[r.idx()].is_some() {
+            return; // the pattern pre-shares it: a different key is simply a wrong configuration (C08)
+        }
+        cfg.rs_pub[r.idx()] = dh.pubkey(&crate::exec::key_bytes(9));
+        let mut ops = sess::handshake_ops(&p, &[20, 20, 20, 20]);
+        ops.truncate(2 * k + 2);
+        let probe = 2 * k + 1;
+        ops[probe] = Op::HsRead { side: r, msg: Msg::Last(w), cap: cap.clone() };
+        let (v, rejected) = check_exec(&cfg, &ops, probe);
+        ctx.add(&ctx.evaluations, 1);
+        ctx.add(&ctx.transitions, ops.len() as u64);
+        ctx.add(&ctx.traces, 1);
+        if rejected {
+            ctx.count("message with a static key other than the supplied one rejected", 1);
+        }
+        if let Some((sig, d)) = v {
+            ctx.violation(format!("{sig} (genuine message, the reader was given another static key)"), d, json!({"kind": "exec", "config": cfg, "ops": ops, "probe": probe}));
+        }
+    });
+    ctx.count("supplied_other_static_cases", pj.len() as u64);
+}
+
 pub fn run(tier: Tier) -> i32 {
     let ctx = Ctx::new("C19", tier, "fault_enumeration");
     // the whole thorough alphabet costs a few seconds: both tiers run it
     let quick = false;
     // thorough: more plaintext lengths, every body bit of the first 64 bytes, every pattern for the encrypted-s part
     let thorough = !ctx.quick();
-    ctx.set_rule("case = (cipher x backend, read path in {handshake payload, stateful transport, stateless transport, Cipher::decrypt directly}, plaintext length in {4,16,17,64,1000}, alteration: every bit of the tag, every bit (stride 5 above 17 bytes) of the first 64 body bytes, wrong nonce, wrong ad, output buffer length in {pt, ct-1, ct, ct+1, 2*ct}); handshake messages with an encrypted static key before the payload (XX, IK, IX, XK, KX, X x 25519/P256 x payload {0,4,20,100}) altered in the payload body/tag only x 12 buffer sizes, where neither the payload nor the decrypted static key may appear; oracle: after Err the canary-filled output buffer contains no 8-byte (4 for short plaintexts) window of the rejected message's plaintext. non-trivial = the read was rejected");
+    ctx.set_rule("case = (cipher x backend, read path in {handshake payload, stateful transport, stateless transport, Cipher::decrypt directly}, plaintext length in {4,16,17,64,1000}, alteration: every bit of the tag, every bit (stride 5 above 17 bytes) of the first 64 body bytes, wrong nonce, wrong ad, output buffer length in {pt, ct-1, ct, ct+1, 2*ct}); handshake messages with an encrypted static key before the payload (XX, IK, IX, XK, KX, X x 25519/P256 x payload {0,4,20,100}) altered in the payload body/tag only x 12 buffer sizes, where neither the payload nor the decrypted static key may appear; messages valid under the reserved nonce 2^64-1 (crafted with the reference AEAD), and genuine handshake messages read by a party that was given another static key; oracle: after Err the canary-filled output buffer contains no 8-byte (4 for short plaintexts) window of the rejected message's plaintext. non-trivial = the read was rejected");
     let mut cases: Vec<(CipherAlg, Backend, Path, usize, Alter, bool, usize)> = vec![];
     for (c, b) in cipher_backends() {
         for path in [Path::HandshakePayload, Path::Stateful, Path::Stateless] {
@@ -279,6 +379,7 @@ pub fn run(tier: Tier) -> i32 {
         }
     });
     ctx.count("encrypted_static_cases", scases.len() as u64);
+    other_rejections(&ctx);
     for (c, b) in cipher_backends() {
         direct(&ctx, c, b == Backend::Ring);
     }
@@ -291,6 +392,14 @@ pub fn run(tier: Tier) -> i32 {
 }
 
 pub fn replay(case: &serde_json::Value) -> Result<(), String> {
+    if case["kind"] == "reserved" {
+        let ctx = Ctx::new("C19", Tier::Quick, "fault_enumeration");
+        other_rejections(&ctx);
+        return match ctx.violations.lock().unwrap().first() {
+            Some(v) => Err(format!("{}: {}", v.signature, v.detail)),
+            None => Ok(()),
+        };
+    }
     if case["kind"] == "direct" {
         let ctx = Ctx::new("C19", Tier::Quick, "fault_enumeration");
         let c = CipherAlg::from_name(case["cipher"].as_str().unwrap_or("")).ok_or("bad case")?;
